@@ -17,7 +17,7 @@ from mc import core, refsd, xmile
 LEVEL = "exploration"
 
 GF_T = [[0.0, 2.0], [1.0, 3.0], [2.0, 1.0], [3.0, -1.0], [5.0, 4.0]]
-GF_S = [[0.0, 0.0], [4.0, 2.0], [8.0, 1.0], [12.0, 5.0]]
+GF_S = [[2.0, 0.0], [5.0, 2.0], [8.0, 1.0], [11.0, 5.0]]       # evenly spaced from a minimum that is not 0: written as <xscale min max>
 
 SHAPES = ["const", "prop", "goal", "time_fall", "time_rise", "gf_time", "gf_stock", "aux_chain"]
 
@@ -127,7 +127,13 @@ def to_stmx(g, start, stop, dt, reciprocal):
     for n, a in g["auxes"].items():
         v = {"kind": "aux", "name": n, "eqn": xmile.render(a["eq"], "min")}
         if a["gf"]:
-            v["gf"] = {"xpts": [p[0] for p in a["gf"]], "ypts": [p[1] for p in a["gf"]]}
+            xs = [p[0] for p in a["gf"]]
+            steps = set(round(b - c, 12) for b, c in zip(xs[1:], xs))
+            if len(steps) == 1:
+                # evenly spaced x values: the other documented way of writing them
+                v["gf"] = {"xmin": xs[0], "xmax": xs[-1], "ypts": [p[1] for p in a["gf"]]}
+            else:
+                v["gf"] = {"xpts": xs, "ypts": [p[1] for p in a["gf"]]}
         vs.append(v)
     return xmile.document(vs, start, stop, dt, reciprocal)
 
